@@ -246,6 +246,7 @@ type Event struct {
 	Term Term
 	Raw  string
 	Ob   *Obligation
+	Structural bool // typing / allocation / axiom-instance fact: kept in modular contexts
 }
 
 type Obligation struct {
@@ -263,6 +264,7 @@ type Obligation struct {
 	FailPart int
 	failParts []int
 	PartPos   []string
+	ModularFrom int // >0: proved from the entry assumptions and the events from this index on (modular loop)
 	Result  string // unsat (discharged) | sat | unknown | timeout | error
 	Backend string
 	Ms      int64
